@@ -91,7 +91,9 @@ def reformat_file(
     if read_stdin:
         text = sys.stdin.read()
     else:
-        text = Path(path).read_text()
+        # No newline translation: inside frontmatter a lone CR is a character, not a line end.
+        with open(path, newline="") as f:
+            text = f.read()
 
     result = reformat_text(
         text, width, plaintext, semantic, cleanups, smartquotes, ellipses, list_spacing
